@@ -108,6 +108,11 @@ def c17(ctx):
                               {"replay_kind": "todyn_probe", "features": list(feats), "tag": tag, "name": name, "source": src},
                               "to_dyn! does not work in a calling crate when rrtk is built with features [%s] (%s): %s" % (
                                   ", ".join(feats), name, res[name][1]))
+    # any number of rounds: the locked model's inductive invariant, discharged symbolically by Apalache (4 threads, K in 1..1000)
+    vlib.run_apalache(ctx, "RefThreadsInd", [("base", "Init", "IndInv", 0), ("step", "IndInit", "IndInv", 1), ("implies_safety", "IndInit", "Safety", 0)])
+    ctx.notes.append("Apalache: RefThreadsInd.tla (the locked variant of RefThreads.tla with a ghost counter) - Init => IndInv, IndInv /\\ Next => IndInv' and "
+                     "IndInv => MutualExclusion /\\ NoLostUpdate established symbolically for 4 threads and every number of rounds K in 1..1000, i.e. for "
+                     "histories of any length (TLC explores (threads, rounds) in {(2,2), (3,2), (2,3)})")
     # beyond C17: which borrows of a Reference may coexist within one thread (spec/RefGuards.tla); deviations are EXTRA-DEVIATION notes
     gcfg = cfg_text(constants={"MaxLen": 5 if q else 6, "MaxGuards": 3, "Emit": True}, invariants=["Laws", "EmitInv"])
     rg = tlc_ok(run_tlc(ctx, "RefGuards", gcfg, "guards", 2))
